@@ -861,7 +861,15 @@ def make_case(rng, tid, *, groups=("core",), AND=None, max_rows=8, modes=False, 
         cfg["keepUnmatched"] = rng.random() < 0.6
         cfg["noRun"] = rng.random() < 0.1
         cfg["noDefaultPrint"] = rng.random() < 0.5
-    return {"tid": tid, "prog": prog, "records": fs.records, "cfg": cfg}
+    case = {"tid": tid, "prog": prog, "records": fs.records, "cfg": cfg}
+    if modes and rng.random() < 0.6:
+        # free comment text of arbitrary characters (all but ~ [ ] $, and no colon: a colon after a word would make a field) and
+        # additional metadata fields, in front of the mode settings: neither changes what the settings mean
+        chars = "\"'#@(){}<>!?%&*+=/\\|;,^`_-. 0aZ\u00e9\t\n"
+        free = "".join(rng.choice(chars) for _ in range(rng.randint(1, 12))).strip()
+        extra = rng.choice(["", "", "note-1: " + "".join(rng.choice(chars) for _ in range(rng.randint(1, 8))).strip() + " x", "owner: team a"])
+        case["_free"] = " ".join(x for x in (free, extra) if x)
+    return case
 
 
 def make_group(rng, tid, *, n_members=None, groups=("core",), max_rows=7, modes=False):
